@@ -779,6 +779,8 @@ func herr(err error) string {
 		return "ext"
 	case "missing address":
 		return "addr"
+	case "invalid options length":
+		return "opt"
 	}
 	return "other"
 }
@@ -813,6 +815,17 @@ func runHdr(op string, k *toks, o *vu.Out) {
 	o.Op(op, res)
 	if res == "panic" {
 		o.Fail("", "Header.Marshal/Parse panicked on "+op)
+		return
+	}
+	// options the header length field cannot represent must be refused, never silently mis-encoded
+	if len(s.options)%4 != 0 || len(s.options) > 40 {
+		if s.length >= 20 && back != nil {
+			o.Fail("", fmt.Sprintf("Header.Marshal accepted %d option bytes, which the 4-bit header length cannot represent; parsed back %s", len(s.options), renderHeader(back)))
+		} else if s.length >= 20 && strings.HasPrefix(res, "ok") {
+			o.Fail("", "Header.Marshal accepted unrepresentable options: "+res[:min(len(res), 120)])
+		} else {
+			o.Stat("hdr:refused-options")
+		}
 		return
 	}
 	inDom := s.version == 4 && s.length == 20+len(s.options) && len(s.options)%4 == 0 && len(s.options) <= 40 &&
